@@ -311,6 +311,10 @@ structure PemIn where
   dsaX : Int := 0
   dsaY : Int := 0
   dsaExp : Int := 0
+  /-- DSA only: G, the stdlib answers Q.ProbablyPrime(20) and Exp(G, Q, P) -/
+  dsaG : Int := 0
+  dsaQPrime : Bool := false
+  dsaGQ : Int := 0
 
 inductive PemRes where
   | err | needPass | badPass
@@ -335,11 +339,18 @@ def tyOpenSSH := nm "OPENSSH PRIVATE KEY"
 def dsaConsistent (i : PemIn) : Bool :=
   decide (0 < i.dsaP) && decide (0 < i.dsaX) && decide (i.dsaX < i.dsaQ) && decide (i.dsaExp = i.dsaY)
 
-/-- `ParseDSAPrivateKey` on top of the asn1 oracle: nothing after the SEQUENCE, then the public value
-    must be the one belonging to the private value -/
+/-- the group test added by f1d7a77: (P, Q, G) must be a DSA group —
+    `P <= 0 || Q <= 0 || !Q.ProbablyPrime(20) || (P-1) mod Q != 0 || G <= 1 || G >= P || Exp(G, Q, P) != 1` ⇒ error -/
+def dsaGroup (i : PemIn) : Bool :=
+  decide (0 < i.dsaP) && decide (0 < i.dsaQ) && i.dsaQPrime && decide ((i.dsaP - 1) % i.dsaQ = 0) &&
+  decide (1 < i.dsaG) && decide (i.dsaG < i.dsaP) && decide (i.dsaGQ = 1)
+
+/-- `ParseDSAPrivateKey` on top of the asn1 oracle: nothing after the SEQUENCE, the parameters form a
+    DSA group, then the public value must be the one belonging to the private value -/
 def dsaDer (i : PemIn) : DerRes :=
   match i.der with
-  | .ok k p => if i.dsaRest then .err else if !dsaConsistent i then .err else .ok k p
+  | .ok k p =>
+    if i.dsaRest then .err else if !dsaGroup i then .err else if !dsaConsistent i then .err else .ok k p
   | _ => .err           -- the asn1 error is re-wrapped with errors.New: never a StructuralError
 
 /-- `ParseRawPrivateKey` for block types other than OPENSSH PRIVATE KEY -/
